@@ -135,3 +135,29 @@ fn bprime_stack_region_for_every_sp_offset() {
     println!("BPRIME evaluations={n}");
     std::mem::forget(dumper);
 }
+
+/// C06 (last clause) / obligation verus:stack::get_stack_info [C06 plausible]: a stack pointer inside a large
+/// inaccessible (---p) region with no plausible stack mapping within the guard distance: the captured stack
+/// is EMPTY (and capturing that thread does not fail).
+#[test]
+fn c06_no_plausible_mapping_within_guard_distance_gives_an_empty_stack() {
+    let len = 3 << 20; // 3 MiB of PROT_NONE, more than the 1 MiB guard distance
+    let region = unsafe { libc::mmap(std::ptr::null_mut(), len, libc::PROT_NONE, libc::MAP_PRIVATE | libc::MAP_ANONYMOUS, -1, 0) };
+    assert_ne!(region, libc::MAP_FAILED);
+    let base = region as usize;
+    let pid = std::process::id() as i32;
+    let dumper = dumper_for(vec![mapping(base, len, MMPermissions::PRIVATE)]);
+    for (what, cap) in [("unlimited", MaxStackLen::None), ("limited", MaxStackLen::Len(LIMIT_MAX_EXTRA_THREAD_STACK_LEN))] {
+        let mut config = MinidumpWriter::new(pid, pid);
+        let mut buffer = DumpBuf::with_capacity(0);
+        let mut thread = MDRawThread {
+            thread_id: pid as u32, suspend_count: 0, priority_class: 0, priority: 0, teb: 0,
+            stack: MDMemoryDescriptor::default(), thread_context: MDLocationDescriptor::default(),
+        };
+        let r = fill_thread_stack(&mut config, &mut buffer, &dumper, &mut thread, 0, base + 0x128, cap);
+        assert!(r.is_ok(), "{what}: a stack pointer in a large inaccessible region must give an empty stack, not {:?}", r.err());
+        assert_eq!((thread.stack.memory.data_size, config.memory_blocks.len()), (0, 0), "{what}: the stack must be empty");
+    }
+    std::mem::forget(dumper);
+    unsafe { libc::munmap(region, len); }
+}
